@@ -41,7 +41,7 @@ Strs == {[id |-> "str:" \o t, cls |-> "str", s |-> Unescape(t)] : t \in StrTexts
 Bools == {[id |-> "bool:t", cls |-> "bool", b |-> TRUE], [id |-> "bool:f", cls |-> "bool", b |-> FALSE]}
 Fallbacks == {[id |-> x, cls |-> "fallback"] : x \in
   {"nil", "nilptr:int", "nilptr:string", "nilptr:struct", "nilptr:slice", "nilptr:map", "nilptr:vstringer", "nilptr:pstringer",
-   "nilptr:vnumber", "nilptr:vboolean", "nilptrsafe",
+   "nilptr:vnumber", "nilptr:vboolean", "nilptrsafe", "embnilstringer", "embnilmethod",
    (* nil pointers to types whose methods have POINTER receivers: methods that dereference (a call would panic) and methods
       that tolerate nil and answer something (a call would return it instead of the fallback) *)
    "nilptr:pstrict", "nilptr:pnumber", "nilptr:pboolean", "nilptr:ptolerant", "slice:int:1,2", "slice:int:", "slice:nilint", "map:ss:k=v", "map:nilss", "struct:person",
